@@ -10,6 +10,8 @@ import time
 
 ROOT = os.path.dirname(os.path.dirname(os.path.abspath(__file__)))
 KNOWN = os.path.join(ROOT, "known_findings.json")
+# development aid (never set by MANIFEST): runs against a scratch checkout write their evidence / replays elsewhere
+OUT_ROOT = os.environ.get("VERIF_SCRATCH_OUT") or ROOT
 
 
 def _jsonable(x):
@@ -87,7 +89,7 @@ class Ctx:
                     print(f"KNOWN-FINDING: property={self.pid} {k['what']} [{k['id']}]", flush=True)
                 return False
         h = hashlib.sha1(json.dumps(_jsonable(signature), sort_keys=True).encode()).hexdigest()[:12]
-        d = os.path.join(ROOT, "replays", self.pid)
+        d = os.path.join(OUT_ROOT, "replays", self.pid)
         os.makedirs(d, exist_ok=True)
         path = os.path.join(d, f"{h}.json")
         if not any(v[2] == path for v in self.violations):
@@ -122,7 +124,7 @@ class Ctx:
             "coverage": cov, "assumptions": self.assumptions, "wall_s": round(time.time() - self.t0, 2),
             "violations": len(self.violations),
         }
-        d = os.path.join(ROOT, "evidence")
+        d = os.path.join(OUT_ROOT, "evidence")
         os.makedirs(d, exist_ok=True)
         with open(os.path.join(d, f"{self.pid}.json"), "w") as f:
             json.dump(ev, f, indent=1)
